@@ -31,8 +31,10 @@ Unspec == [r |-> "unspec", v |-> None]
 Env == [x |-> I(3), xs |-> A(<<I(1), I(2)>>), es |-> A(<<>>), m |-> M(<< <<"a", I(1)>>, <<"b", I(2)>> >>),
         m2 |-> M(<< <<"b", I(9)>>, <<"c", I(3)>> >>), s |-> S("pq"), y |-> I(7), n |-> None]
 \* ("-1": a literal the parser has to fold with its sign -- an all-literal collection is built at parse time)
-Leaves == {"1", "-1", "'a'", "x", "xs", "es", "m", "m2", "s", "n", "u"}
-Leaf(l) == CASE l = "1" -> I(1) [] l = "-1" -> I(-1) [] l = "'a'" -> S("a") [] l = "u" -> Undef [] OTHER -> Env[l]
+\* (L17: an all-literal array of 17 items -- literal collections are folded at parse time, whatever their size and nesting)
+L17 == "[1, 2, 3, 4, 5, 6, 7, 8, 9, 10, 11, 12, 13, 14, 15, 16, 17]"
+Leaves == {"1", "-1", "'a'", "x", "xs", "es", "m", "m2", "s", "n", "u", L17}
+Leaf(l) == CASE l = "1" -> I(1) [] l = "-1" -> I(-1) [] l = "'a'" -> S("a") [] l = "u" -> Undef [] l = L17 -> A([j \in 1..17 |-> I(j)]) [] OTHER -> Env[l]
 
 \* ---- array literal
 Items == [sp : BOOLEAN, e : Leaves]
